@@ -134,8 +134,9 @@ def factors(op: str, approx: str) -> List[Dict[str, Any]]:
     return out
 
 
-def cell_task(op: str, approx: str, lo_cell: int, hi_cell: int, timeout: float) -> List[Dict[str, Any]]:
+def cell_task(op: str, approx: str, lo_cell: int, hi_cell: int, timeout: float, ncells: int = NCELLS) -> List[Dict[str, Any]]:
     torch.set_num_threads(1)
+    NCELLS = ncells
     recs: List[Dict[str, Any]] = [{"type": "function", "functions": []}]
     paths = factors(op, approx)
     edges = [2 ** (-4 + 8 * i / NCELLS) for i in range(NCELLS + 1)]
@@ -227,7 +228,7 @@ def task_control() -> List[Dict[str, Any]]:
     old = (LO, HI)
     LO, HI = 0.995, 1.005
     try:
-        recs = cell_task("gelu", "none", 200, 210, 20)
+        recs = cell_task("gelu", "none", 200, 210, 20, 512)
     finally:
         LO, HI = old
     failed = [r for r in recs if r.get("type") == "violation" or (r.get("type") == "obligation" and r["status"] != PROVED)]
@@ -304,16 +305,17 @@ def run(rep: Report, only: str = "") -> None:
     thorough = rep.tier == "thorough"
     timeout = 60 if thorough else 20
     tasks: List[Any] = []
-    chunk = 32
+    ncells = 2048 if thorough else NCELLS  # thorough: four times finer cells (tighter sigma enclosures)
+    chunk = ncells // 16
     for op, ap in OPS:
-        for lo in range(0, NCELLS, chunk):
-            tasks.append((cell_task, (op, ap, lo, lo + chunk, timeout)))
+        for lo in range(0, ncells, chunk):
+            tasks.append((cell_task, (op, ap, lo, lo + chunk, timeout, ncells)))
     tasks += [(task_control, ()), (task_oracle_validation, ()), (task_uniform_ce, ())]
     if only:
         tasks = [t for t in tasks if only in repr(t[1]) or only in t[0].__name__]
     rep.extend(run_tasks(tasks))
     rep.functions = [describe_function(f) for f in (U.gelu, U.silu, U.silu_glu, U.cross_entropy, ucf.logarithmic_interpolation, ucf.scale_elementwise)]
-    rep.bounds = {"mult": f"every real mult in [1/16, 16]: {NCELLS} cells of a log grid, each decided for all mult in the cell",
+    rep.bounds = {"mult": f"every real mult in [1/16, 16]: {ncells} cells of a log grid, each decided for all mult in the cell",
                   "quantities": "gelu (exact, tanh), silu: output std and input-gradient RMS; silu_glu: output std and both input-gradient RMS",
                   "uniform logits": "vocabulary 2..2^20, batch 1..2^20, mult in (0,4]",
                   "outside": "softmax, attention, non-uniform cross-entropy band [0.95,1.45], layer/RMS-norm +-10 %: Monte-Carlo expectations without a closed form - NOT checked; "
